@@ -653,7 +653,7 @@ SNIPPETS = [
     "__reduce__", "__reduce_ex__(2)", "__subclasshook__", "__spec__", "__debug__", "__doc__",
     "None", "True", "False", "Ellipsis", "...", "NotImplemented", "nan", "inf", "-inf", "infinity",
     "1e400", "1e-400", "0x10", "0b101", "0o17", "1j", "1_0", "1__0", "1e", "1e+", "e", "E", "1.e1", "1.E-1",
-    "9**9**9**9", "2**2**2**2**2**2", "10**10**10", "(2**64)**(2**20)", "0.5**-99999999999",
+    "2**2**2**2", "0.5**-99999999999", "2**3**4",
     "\\", "\\n", "\x00", "2 m\x00", "\x00 m", "'", "\"", "'''", "\"\"\"", "'abc'", "b'abc'", "r'\\d'", "u'x'", "'a' 'b'",
     "'a' * 3", "'m'", "\"m\" s", "#", "# comment", "2 m # comment", "2 # m", ";", "2;3", "m;__import__('os')",
     ",", "1,2", "1,000.5 m", "m,s", ":", "m:s", "=", "m=2", "m==s", "+=", "m+=1", "->", "m->s", "!", "m!", "1!",
@@ -672,6 +672,7 @@ SNIPPETS = [
     "abs", "hash", "id", "type", "len", "max", "sum", "pow", "round", "map", "zip", "set", "iter", "next",
 ]
 
+HEAVY = ["9**9**9**9", "10**10**10", "(2**64)**(2**20)", "2**2**2**2**2**2"]   # hit the watchdog
 HOSTILE_CHARS = "()()**//+-^.eE_'\"\\;:=<>[]{}!@#$%&|~,` \t\n#0123456789±²³⁻·°µ"
 
 
@@ -703,6 +704,8 @@ def _rand_unicode(rng, n):
 def hostile_string(rng, names, canary, valid_pool):
     """One hostile input; returns (family, string)."""
     r = rng.random()
+    if r < 0.0003:
+        return "snippet", rng.choice(HEAVY)
     if r < 0.14:
         return "unicode", _rand_unicode(rng, rng.randint(1, 24))
     if r < 0.24:
